@@ -90,6 +90,7 @@ type Field struct {
 	Embedded   bool    `json:"embedded,omitempty"`
 	Unexported bool    `json:"unexported,omitempty"`
 	Desc       string  `json:"desc,omitempty"`
+	Raw        string  `json:"raw,omitempty"` // when set, the whole field line verbatim (hostile-construct labs)
 }
 
 type EnumConst struct {
@@ -103,7 +104,9 @@ type TypeDecl struct {
 	Name        string      `json:"name"`
 	Pkg         string      `json:"pkg"`
 	File        string      `json:"file"`
-	Kind        string      `json:"kind"` // struct enum alias
+	Kind        string      `json:"kind"`              // struct enum alias raw
+	Raw         string      `json:"raw,omitempty"`     // kind raw: declaration text verbatim
+	Imports     []string    `json:"imports,omitempty"` // extra imports the raw text needs
 	Fields      []Field     `json:"fields,omitempty"`
 	Base        string      `json:"base,omitempty"` // enum/alias underlying primitive
 	Consts      []EnumConst `json:"consts,omitempty"`
@@ -171,6 +174,7 @@ type Controller struct {
 	Desc       string    `json:"desc,omitempty"`
 	Deprecated bool      `json:"deprecated,omitempty"`
 	Grouped    bool      `json:"grouped,omitempty"` // declared inside type ( ... )
+	RawDoc     []string  `json:"rawDoc,omitempty"`  // when set, replaces the rendered comment block
 	Methods    []*Method `json:"methods"`
 }
 
